@@ -448,3 +448,362 @@ func checkFixedTableIndices(c *core.Ctx, rule string) {
 		c.Undecided(rule, "batched#fixed-tables", "-", "no variable index into a fixed-size package-level table found")
 	}
 }
+
+// checkStreamFixedAtHandOff (R13.14, shared as R14.11): recovery replaces the pooled connection's stream (the fields
+// reconnect assigns). The batcher hands a batch to the reader and only then writes it; the reader may fail, and recovery
+// may swap the stream, at any moment after the hand-off. A read of such a field by the batcher after a hand-off is
+// ordered with recovery's write only in one of two ways:
+//
+//   - it comes after a synchronisation with the recovery side (a receive from a channel recovery sends on after the
+//     reconnect, a lock reconnect also takes, or the next hand-off, which the reader only takes once recovery is over);
+//   - or recovery waits for the batcher: reconnect is called only after a receive from a channel X ("ordering channel")
+//     on which the batcher sends once per batch after its last use of the stream. Then the per-batch token has to be
+//     balanced - one send per hand-off, one receive per batch on the reader/recovery side - or the token recovery
+//     receives belongs to another batch (no ordering) or never arrives (the pool is wedged); and recovery has to close
+//     the broken connection before it waits, or a batcher blocked in the write keeps it waiting forever.
+//
+// Anything else is a data race under the Go memory model, and the batch may be written to the new connection although
+// its callers were already told to retry.
+func checkStreamFixedAtHandOff(c *core.Ctx, rule string) {
+	rec := findFunc(c, relBatched, "(*conn).reconnect", rolePoolReconnect)
+	key := "(*conn).batcher#stream-read-after-hand-off"
+	if rec == nil {
+		c.Undecided(rule, key, "-", "reconnect not found")
+		return
+	}
+	swapped := map[string]bool{}
+	reconnectLocks := map[string]bool{}
+	ssax.Instrs(rec, func(ins ssa.Instruction) {
+		if st, ok := ins.(*ssa.Store); ok {
+			if fa, ok := st.Addr.(*ssa.FieldAddr); ok {
+				if _, isParam := ssax.Unwrap(fa.X).(*ssa.Parameter); isParam {
+					f, _ := ssax.FieldName(fa)
+					swapped[f] = true
+				}
+			}
+		}
+		if cc := ssax.CallOf(ins); cc != nil && strings.HasSuffix(ssax.CalleeName(cc), ").Lock") {
+			reconnectLocks[ssax.LockKey(cc.Args[0])] = true
+		}
+	})
+	if len(swapped) == 0 {
+		c.OK(rule, key, c.P.Pos(rec.Pos()), "reconnect assigns no field of the connection")
+		return
+	}
+	// the batcher: the goroutine function of the connection that sends on the hand-off channel
+	var batcher, reader *ssa.Function
+	var handOffs, takes []ssa.Instruction
+	for _, fn := range pkgFuncs(c, relBatched) {
+		ssax.Instrs(fn, func(ins ssa.Instruction) {
+			if isChanSendOn(ins, "batchchan") {
+				batcher = fn
+				handOffs = append(handOffs, ins)
+			}
+			if isChanRecvOn(ins, "batchchan") {
+				reader = fn
+				takes = append(takes, ins)
+			}
+		})
+	}
+	if batcher == nil {
+		c.Undecided(rule, key, "-", "no function hands batches to the reader")
+		return
+	}
+	// the call sites of reconnect that can run while the batcher exists (not the constructor's, which precedes `go`)
+	type site struct {
+		fn  *ssa.Function
+		ins ssa.Instruction
+	}
+	var sites []site
+	for _, fn := range pkgFuncs(c, relBatched) {
+		hasGo := false
+		ssax.Instrs(fn, func(ins ssa.Instruction) {
+			if _, ok := ins.(*ssa.Go); ok {
+				hasGo = true
+			}
+		})
+		ssax.Instrs(fn, func(ins ssa.Instruction) {
+			cc := ssax.CallOf(ins)
+			if cc == nil || cc.StaticCallee() != rec {
+				return
+			}
+			if hasGo {
+				back, _ := (ssax.Reach{Target: func(i ssa.Instruction) bool { _, ok := i.(*ssa.Go); return ok }}).FromBlock(fn.Blocks[0])
+				reached, _ := (ssax.Reach{Target: func(i ssa.Instruction) bool { return i == ins }, Avoid: func(i ssa.Instruction) bool { _, ok := i.(*ssa.Go); return ok }}).FromBlock(fn.Blocks[0])
+				after, _ := (ssax.Reach{Target: func(i ssa.Instruction) bool { return i == ins }}).From(back)
+				if reached != nil && after == nil {
+					return // runs before any goroutine of the connection is started
+				}
+			}
+			sites = append(sites, site{fn, ins})
+		})
+	}
+	if len(sites) == 0 {
+		c.OK(rule, key, c.P.Pos(rec.Pos()), "reconnect is only called before the connection's goroutines start")
+		return
+	}
+	// channels recovery sends on after the reconnect: receiving from one orders the receiver after the swap
+	released := map[string]bool{}
+	// ordering channels: received from before every reconnect
+	var ordering map[string]bool
+	for _, s := range sites {
+		ssax.Instrs(s.fn, func(ins ssa.Instruction) {
+			if snd, ok := ins.(*ssa.Send); ok {
+				if f, ok := chanField(snd.Chan); ok && ssax.DominatesInstr(s.ins, ins) {
+					released[f] = true
+				}
+			}
+		})
+		here := map[string]bool{}
+		ssax.Instrs(s.fn, func(ins ssa.Instruction) {
+			u, ok := ins.(*ssa.UnOp)
+			if !ok || u.Op != token.ARROW {
+				return
+			}
+			f, ok := chanField(u.X)
+			if !ok {
+				return
+			}
+			avoid := func(i ssa.Instruction) bool { return isChanRecvOn(i, f) }
+			isSite := func(i ssa.Instruction) bool { return i == s.ins }
+			fromEntry, _ := (ssax.Reach{Target: isSite, Avoid: avoid}).FromBlock(s.fn.Blocks[0])
+			around, _ := (ssax.Reach{Target: isSite, Avoid: avoid}).From(s.ins)
+			if fromEntry == nil && around == nil {
+				here[f] = true
+			}
+		})
+		if ordering == nil {
+			ordering = here
+		} else {
+			for f := range ordering {
+				if !here[f] {
+					delete(ordering, f)
+				}
+			}
+		}
+	}
+	// only channels the batcher sends on order anything with the batcher
+	batcherSends := map[string]bool{}
+	ssax.Instrs(batcher, func(ins ssa.Instruction) {
+		if snd, ok := ins.(*ssa.Send); ok {
+			if f, ok := chanField(snd.Chan); ok {
+				batcherSends[f] = true
+			}
+		}
+	})
+	for f := range ordering {
+		if !batcherSends[f] || f == "batchchan" {
+			delete(ordering, f)
+		}
+	}
+	isHandOff := func(ins ssa.Instruction) bool { return isChanSendOn(ins, "batchchan") }
+	isDone := func(ins ssa.Instruction) bool {
+		snd, ok := ins.(*ssa.Send)
+		if !ok {
+			return false
+		}
+		f, ok := chanField(snd.Chan)
+		return ok && ordering[f]
+	}
+	isDoneRecv := func(ins ssa.Instruction) bool {
+		u, ok := ins.(*ssa.UnOp)
+		if !ok || u.Op != token.ARROW {
+			return false
+		}
+		f, ok := chanField(u.X)
+		return ok && ordering[f]
+	}
+	syncPoint := func(ins ssa.Instruction) bool {
+		if u, ok := ins.(*ssa.UnOp); ok && u.Op == token.ARROW {
+			if f, ok := chanField(u.X); ok && released[f] {
+				return true
+			}
+		}
+		if cc := ssax.CallOf(ins); cc != nil && strings.HasSuffix(ssax.CalleeName(cc), ").Lock") && reconnectLocks[ssax.LockKey(cc.Args[0])] {
+			return true
+		}
+		// the next hand-off orders everything after it with the recovery of earlier batches
+		return isHandOff(ins)
+	}
+	isSwappedRead := func(ins ssa.Instruction) bool {
+		u, ok := ins.(*ssa.UnOp)
+		if !ok || u.Op != token.MUL {
+			return false
+		}
+		fa, ok := u.X.(*ssa.FieldAddr)
+		if !ok {
+			return false
+		}
+		f, _ := ssax.FieldName(fa)
+		return swapped[f]
+	}
+	// the points of the batcher from which a read of the stream is unordered with recovery: a hand-off when recovery
+	// does not wait for the batcher, the "done" send when it does
+	var from []ssa.Instruction
+	what := "handing a batch to the reader"
+	if len(ordering) == 0 {
+		from = handOffs
+	} else {
+		what = "telling recovery it is done with the connection"
+		ssax.Instrs(batcher, func(ins ssa.Instruction) {
+			if isDone(ins) {
+				from = append(from, ins)
+			}
+		})
+	}
+	var bad []string
+	for _, h := range from {
+		hit, _ := (ssax.Reach{Target: isSwappedRead, Avoid: syncPoint}).From(h)
+		if hit != nil {
+			f, _ := ssax.FieldName(hit.(*ssa.UnOp).X)
+			bad = append(bad, fmt.Sprintf("after %s (%s) the batcher reads c.%s at %s, which reconnect assigns (recovery of that very batch may run by then)", what, c.P.Pos(h.Pos()), f, c.P.Pos(hit.Pos())))
+		}
+	}
+	c.Check(len(bad) == 0, rule, key, c.P.Pos(batcher.Pos()), "the batcher reads no field that reconnect assigns between a hand-off and its next synchronisation with recovery"+
+		map[bool]string{true: " (recovery waits for the batcher's per-batch signal on " + strings.Join(sortedKeys(ordering), ",") + ")", false: ""}[len(ordering) > 0],
+		strings.Join(uniq(bad), "; ")+": unsynchronised with recovery's write (a data race), and the batch can go out on the new connection after its callers were told to retry")
+	if len(ordering) == 0 {
+		return
+	}
+	// ---- the per-batch token is balanced ----
+	tkey := "(*conn)#done-signal-per-batch"
+	var unbalanced []string
+	isReturn := func(ins ssa.Instruction) bool { _, ok := ins.(*ssa.Return); return ok }
+	for _, h := range handOffs {
+		if hit, _ := (ssax.Reach{Target: func(i ssa.Instruction) bool { return isHandOff(i) || isReturn(i) }, Avoid: isDone}).From(h); hit != nil {
+			unbalanced = append(unbalanced, fmt.Sprintf("the batcher can go from the hand-off at %s to %s without signalling that it is done with the connection: recovery of that batch (and the reader, after a complete batch) waits forever", c.P.Pos(h.Pos()), c.P.Pos(hit.Pos())))
+		}
+	}
+	for _, d := range from {
+		if hit, _ := (ssax.Reach{Target: isDone, Avoid: isHandOff}).From(d); hit != nil {
+			unbalanced = append(unbalanced, fmt.Sprintf("the batcher can signal twice for one batch (%s, then %s): the second signal is taken for the next batch, whose write may still be going on when recovery swaps the stream", c.P.Pos(d.Pos()), c.P.Pos(hit.Pos())))
+		}
+	}
+	if hit, _ := (ssax.Reach{Target: isDone, Avoid: isHandOff}).FromBlock(batcher.Blocks[0]); hit != nil {
+		unbalanced = append(unbalanced, fmt.Sprintf("the batcher signals at %s before any batch was handed over: the signal is taken for the first batch while it is still being written", c.P.Pos(hit.Pos())))
+	}
+	if reader == nil {
+		c.Undecided(rule, tkey, "-", "no function takes batches from the hand-off channel")
+		return
+	}
+	jumps := recoveryJumps(reader)
+	if jumps == nil {
+		c.Undecided(rule, tkey, c.P.Pos(reader.Pos()), "no recovery flag found in the reader (see R13.1)")
+		return
+	}
+	isTake := func(ins ssa.Instruction) bool { return isChanRecvOn(ins, "batchchan") }
+	consumed := func(ins ssa.Instruction) bool { return isDoneRecv(ins) || jumps[ins] }
+	for _, t := range takes {
+		if hit, _ := (ssax.Reach{Target: func(i ssa.Instruction) bool { return isTake(i) || isReturn(i) }, Avoid: consumed}).From(t); hit != nil {
+			unbalanced = append(unbalanced, fmt.Sprintf("the reader can go from taking a batch (%s) to %s without taking the batcher's signal for it or failing into recovery: the signal stays in the channel, the batcher blocks on the next one and recovery takes a stale signal", c.P.Pos(t.Pos()), c.P.Pos(hit.Pos())))
+		}
+	}
+	ssax.Instrs(reader, func(ins ssa.Instruction) {
+		if !isDoneRecv(ins) {
+			return
+		}
+		if hit, _ := (ssax.Reach{Target: consumed, Avoid: isTake}).From(ins); hit != nil {
+			unbalanced = append(unbalanced, fmt.Sprintf("after taking the batcher's signal at %s the reader can take it again or fail into recovery (%s): the second taker waits for a signal that never comes", c.P.Pos(ins.Pos()), c.P.Pos(hit.Pos())))
+		}
+	})
+	for _, s := range sites {
+		isSite := func(i ssa.Instruction) bool { return i == s.ins }
+		ssax.Instrs(s.fn, func(ins ssa.Instruction) {
+			if !isDoneRecv(ins) {
+				return
+			}
+			if hit, _ := (ssax.Reach{Target: isDoneRecv, Avoid: isSite}).From(ins); hit != nil {
+				unbalanced = append(unbalanced, fmt.Sprintf("recovery takes the batcher's signal twice before one reconnect (%s, %s): the second wait never ends", c.P.Pos(ins.Pos()), c.P.Pos(hit.Pos())))
+			}
+		})
+	}
+	c.Check(len(unbalanced) == 0, rule, tkey, c.P.Pos(batcher.Pos()), "one signal per batch: the batcher sends it once after each hand-off, the reader takes it once per completed batch and recovery once per failed batch",
+		strings.Join(uniq(unbalanced), "; "))
+	// ---- recovery closes the broken connection before it waits ----
+	ckey := "(*conn)#blocked-write-released"
+	var unreleased []string
+	for _, s := range sites {
+		isClose := func(ins ssa.Instruction) bool {
+			cc := ssax.CallOf(ins)
+			if cc == nil || !strings.HasSuffix(ssax.CalleeName(cc), ".Close") {
+				return false
+			}
+			var recv ssa.Value
+			if cc.IsInvoke() {
+				recv = cc.Value
+			} else if len(cc.Args) > 0 {
+				recv = cc.Args[0]
+			}
+			if recv == nil {
+				return false
+			}
+			for f := range swapped {
+				if isFieldLoad(recv, f) {
+					return true
+				}
+			}
+			return false
+		}
+		ssax.Instrs(s.fn, func(ins ssa.Instruction) {
+			if !isDoneRecv(ins) {
+				return
+			}
+			isWait := func(i ssa.Instruction) bool { return i == ins }
+			fromEntry, _ := (ssax.Reach{Target: isWait, Avoid: isClose}).FromBlock(s.fn.Blocks[0])
+			around, _ := (ssax.Reach{Target: isWait, Avoid: isClose}).From(s.ins)
+			if fromEntry != nil || around != nil {
+				unreleased = append(unreleased, fmt.Sprintf("recovery waits for the batcher at %s without having closed the broken connection: a batcher blocked in the write of that batch (backend not reading) never signals, recovery never reconnects", c.P.Pos(ins.Pos())))
+			}
+		})
+	}
+	c.Check(len(unreleased) == 0, rule, ckey, c.P.Pos(batcher.Pos()), "recovery closes the connection being replaced before it waits for the batcher, so a blocked write returns", strings.Join(uniq(unreleased), "; "))
+}
+
+// chanField names the connection field a channel operand is loaded from.
+func chanField(v ssa.Value) (string, bool) {
+	v = ssax.Unwrap(v)
+	if u, ok := v.(*ssa.UnOp); ok && u.Op == token.MUL {
+		return ssax.FieldName(u.X)
+	}
+	return "", false
+}
+
+// recoveryJumps returns the jumps of the reader that enter its service loop's head with the recovery flag set, or nil
+// when the reader has no such flag.
+func recoveryJumps(rd *ssa.Function) map[ssa.Instruction]bool {
+	var flag *ssa.Phi
+	for _, l := range ssax.Loops(rd) {
+		for _, ins := range l.Header.Instrs {
+			phi, isPhi := ins.(*ssa.Phi)
+			if !isPhi {
+				break
+			}
+			if types.TypeString(phi.Type(), nil) == "bool" {
+				for _, e := range phi.Edges {
+					if k, isC := ssax.ConstInt(e); isC && k == 1 {
+						flag = phi
+					}
+				}
+			}
+		}
+	}
+	if flag == nil {
+		return nil
+	}
+	out := map[ssa.Instruction]bool{}
+	for i, p := range flag.Block().Preds {
+		if k, isC := ssax.ConstInt(flag.Edges[i]); isC && k == 1 {
+			out[p.Instrs[len(p.Instrs)-1]] = true
+		}
+	}
+	return out
+}
+
+func sortedKeys(m map[string]bool) []string {
+	var out []string
+	for k := range m {
+		out = append(out, k)
+	}
+	sort.Strings(out)
+	return out
+}
